@@ -16,7 +16,7 @@ QUICK = {'budget_s': 40}
 THOROUGH = {'budget_s': 480}
 EXPECTED_PROBES = ['raising_callback', 'outcome_PASS', 'outcome_FAIL', 'outcome_ERROR', 'outcome_TIMEOUT', 'outcome_ABORTED']
 
-PROF = gen.profile(max_nodes=8, max_depth=3, w_phase=10, w_group=3, w_subtest=2, w_branch=1, w_ckpt_fail=1, w_ckpt_diag=0, p_fault_beh=250, p_timeout=60, p_plug=200, plug_faults=200, p_test_start=300, abort=250, abort2=150, sigint=400, p_callbacks_raise=350, p_dur=300, p_profile=100, p_monitor=100)
+PROF = gen.profile(max_nodes=8, max_depth=3, w_phase=10, w_group=3, w_subtest=2, w_branch=1, w_ckpt_fail=1, w_ckpt_diag=0, p_fault_beh=250, p_timeout=60, p_plug=200, plug_faults=200, p_test_start=300, abort=250, abort2=150, sigint=400, p_callbacks_raise=350, p_dur=300, p_profile=100, p_monitor=100, p_dut_percent=300)
 
 
 def setup():
